@@ -159,7 +159,7 @@ func wireCheck(c *chk.Ctx, family string, expandKinds bool, random func(*chk.Ctx
 		publishedHeaders(c, set, suite)
 	}
 	judgeWire(c, family, suite, out)
-	if family == "C02" || family == "C09" {
+	if family == "C02" || family == "C09" || family == "C10" {
 		tsWire(c, set, family, suite)
 	}
 	switch family {
@@ -242,7 +242,7 @@ func wireParseScalar(fd protoreflect.FieldDescriptor, s string) (protoreflect.Va
 // tsWire runs the JSON cases of the suite against the emitted TypeScript server (C02 and C09 anchor it
 // too) and validates the handler view and the responses with the same Trace_Wire specification.
 func tsWire(c *chk.Ctx, set *plug.Set, family string, suite *wire.Suite) {
-	ts := suite.TSView()
+	ts := suite.TSView(family != "C10")
 	if len(ts.Cases) == 0 {
 		return
 	}
@@ -279,6 +279,25 @@ func tsWire(c *chk.Ctx, set *plug.Set, family string, suite *wire.Suite) {
 		op := map[string]any{"op": "tsserve", "case": cs.ID, "call": 1, "module": mods[ts.PkgOf(sh)], "service": sh.Svc, "services": svcs[ts.PkgOf(sh)],
 			"verb": sh.Rpc.Verb, "url": cs.C.URL, "bodyB64": base64.StdEncoding.EncodeToString(cs.C.Body), "noBody": cs.C.NoBody,
 			"handler": map[string]any{"kind": "ok", "value": json.RawMessage(outJS)}}
+		switch cs.A.Handler.Kind {
+		case "plain":
+			op["handler"] = map[string]any{"kind": "plain", "msg": cs.A.Handler.Msg}
+		case "validationError":
+			viol := [][2]string{}
+			for _, n := range cs.A.Handler.Viol {
+				viol = append(viol, [2]string{n, "refused by the handler"})
+			}
+			op["handler"] = map[string]any{"kind": "validationError", "viol": viol}
+		}
+		if cs.A.Hook.On {
+			op["hook"] = map[string]any{"status": cs.A.Hook.Status, "headers": cs.A.Hook.Headers}
+		}
+		if cs.A.Server == "ts" && cs.A.Handler.Kind != "" && family == "C10" {
+			// the validateRequest option is always configured: it reports the case's rule violations (none: an empty list)
+			vs := []string{}
+			vs = append(vs, cs.A.RuleViol...)
+			op["validate"] = vs
+		}
 		var hs, hb [][2]string
 		for _, h := range cs.C.Headers {
 			if utf8.ValidString(h[1]) {
@@ -364,6 +383,8 @@ func tsWire(c *chk.Ctx, set *plug.Set, family string, suite *wire.Suite) {
 		case "Resp":
 			out.Events[id] = append(out.Events[id], drv.Event{"event": "Resp", "case": idf, "call": 1.0, "seq": float64(seq[id]), "status": e["status"], "ctype": e["ctype"],
 				"bodyB64": e["bodyB64"], "headers": e["headers"]})
+		case "HookCalled":
+			out.Events[id] = append(out.Events[id], drv.Event{"event": "HookCalled", "case": idf, "call": 1.0, "seq": float64(seq[id]), "errKind": e["errKind"]})
 		case "TsNoRoute":
 			out.Events[id] = append(out.Events[id], drv.Event{"event": "Resp", "case": idf, "call": 1.0, "seq": float64(seq[id]), "status": 404.0, "ctype": "text/plain",
 				"bodyB64": "", "headers": []any{}})
